@@ -203,7 +203,7 @@ pub fn run(tier: &str) -> i32 {
         eprintln!("MACHINERY: {} missing (run ./setup.sh)", shim);
         return 2;
     }
-    let nseeds: u64 = if thorough { 32 } else { 6 };
+    let nseeds: u64 = if thorough { 256 } else { 6 };
     let envs: Vec<(&str, Vec<(String, String)>, Option<String>)> = vec![
         ("TZ=Asia/Tokyo", vec![("TZ".into(), "Asia/Tokyo".into())], None),
         ("TZ=JST-9", vec![("TZ".into(), "JST-9".into())], None),
